@@ -113,6 +113,7 @@ Example pin_tok_in_date_from_unicode : tok_in_date_from_unicode =
      (t "call:int");
      (t "call:.group");
      (t "s:day");
+     (t "except:ValueError");
      (t "raise:ValidationError")].
 Proof. vm_compute. reflexivity. Qed.
 
@@ -136,6 +137,8 @@ Example pin_tok_in_date_from_unicode_iso : tok_in_date_from_unicode_iso =
      (t "s:day");
      (t "return");
      (t "call:date");
+     (t "except:ValueError");
+     (t "raise:ValidationError");
      (t "raise:ValidationError")].
 Proof. vm_compute. reflexivity. Qed.
 
@@ -161,6 +164,8 @@ Example pin_tok_in_datetime_from_unicode_iso : tok_in_datetime_from_unicode_iso 
      (t "op:*");
      (t "n:60");
      (t "op:+");
+     (t "except:ValueError");
+     (t "raise:ValidationError");
      (t "call:_parse_datetime_iso_match");
      (t "op:IsNot");
      (t "call:.astimezone");
@@ -276,7 +281,9 @@ Example pin_tok_in_time_from_unicode : tok_in_time_from_unicode =
      (t "call:int");
      (t "s:min");
      (t "call:int");
-     (t "s:sec")].
+     (t "s:sec");
+     (t "except:ValueError");
+     (t "raise:ValidationError")].
 Proof. vm_compute. reflexivity. Qed.
 
 Example pin_tok_out__datetime_to_unicode : tok_out__datetime_to_unicode =
